@@ -230,6 +230,11 @@ fn run_f64_when(k: Kind, xs: &[f64], when: Option<&dyn Fn(usize) -> bool>, out: 
         let std_e = var_e.max(0.0).sqrt();
         let tol_std = if var_e > env_var { 2.0 * env_var / std_e } else { env_var.sqrt() };
         let (Some(g), Ex::Val(e)) = (got, ref_t) else {
+            if let (None, Ex::Val(e), true) = (got, ref_t, t + 1 >= must_report_from(&k)) {
+                out.cell(&cell, 1);
+                fail(out, &k, "f64", "reports-once-window-full", t, "None".into(), format!("{:e}", e), xs, "");
+                return;
+            }
             if let (Some(g), Ex::Nothing) = (got, ref_t) {
                 out.cell(&cell, 1);
                 fail(out, &k, "f64", "definition", t, format!("{:e}", g), "no value".into(), xs, "");
@@ -317,9 +322,18 @@ impl Monitor for C02 {
             let j = idx - main - long;
             let ki = (j % KINDS.len() as u64) as usize;
             let n = *rng.pick(&[1usize, 2, 3, 8, 32]);
+            let _ = kind_at(ki, n);
+            let rep = j / KINDS.len() as u64;
+            // repetition 3: beyond 2^20 values; repetition 4: beyond 2^24 (a period or a counter of that
+            // size is a natural choice for "every now and then" bookkeeping)
+            let len = match rep {
+                3 => (1 << 20) + rng.usize(200, 3000),
+                4 => (1 << 24) + rng.usize(200, 3000),
+                _ => rng.usize(66_000, 70_000) + if rng.coin() { 65_536 } else { 0 },
+            };
+            let n = if rep == 3 || rep == 4 { *rng.pick(&[2usize, 4, 10]) } else { n };
             let k = kind_at(ki, n);
-            let len = rng.usize(66_000, 70_000) + if rng.coin() { 65_536 } else { 0 };
-            let style = (j / KINDS.len() as u64) % 3;
+            let style = rep % 3;
             let mut lvl = 0.0f64;
             let xs: Vec<f64> = (0..len)
                 .map(|i| match style {
@@ -334,7 +348,8 @@ impl Monitor for C02 {
             out.key(mix(hash_str(&format!("verylong{:?}", k)), gen::hash_f64s(&xs[xs.len() - 64..])));
             out.count("histories_beyond_65536_values", 1);
             out.maxi("longest_stream", len as f64);
-            let when = |t: usize| t % 997 == 0 || (65_500..65_620).contains(&t) || (131_030..131_150).contains(&t) || t + 64 >= len;
+            let sparse = if len > 200_000 { 99_991 } else { 997 };
+            let when = |t: usize| t % sparse == 0 || (65_500..65_620).contains(&t) || (131_030..131_150).contains(&t) || (1_048_540..1_048_640).contains(&t) || (16_777_180..16_777_280).contains(&t) || t + 64 >= len;
             run_f64_when(k, &xs, Some(&when), out);
             return;
         }
@@ -373,7 +388,24 @@ impl Monitor for C02 {
         } else {
             (4 * n + 50).max(cfg.tier.pick(400, 1200))
         };
-        let xs = gen::gen(class, n, len, &mut rng);
+        let mut xs = gen::gen(class, n, len, &mut rng);
+        // a quarter of the trials give every exact zero a random sign (-0.0 is a zero like any other);
+        // an eighth of the f64 trials of the views that only compare, subtract and divide their inputs
+        // run in units of 2^-1064 (every value a subnormal number, computed without rounding)
+        if rng.chance(1, 4) {
+            for x in xs.iter_mut() {
+                if *x == 0.0 && rng.coin() {
+                    *x = -0.0;
+                }
+            }
+            out.count("trials_with_signed_zeros", 1);
+        }
+        if !exact && matches!(k, Kind::Roc(_) | Kind::HL(_) | Kind::BinEnt(_) | Kind::Min(_) | Kind::Max(_)) && rng.chance(1, 8) {
+            for x in xs.iter_mut() {
+                *x *= 2f64.powi(-532) * 2f64.powi(-532);
+            }
+            out.count("f64_trials_in_subnormal_units", 1);
+        }
         out.key(mix(hash_str(&format!("{:?}{}", k, exact)), gen::hash_f64s(&xs)));
         semantic_counters(&k, &xs, out);
         if idx % 173 == 0 {
@@ -402,7 +434,7 @@ impl Monitor for C02 {
         v
     }
     fn rule(&self) -> String {
-        "trial = (view kind of the ten listed, N, input class of the 18-class catalogue, scalar), plus long-history trials (2600..9000 values, N in {3, 17, 40, 64, 130, 250}) and, at f64, histories of 66 000..135 000 positive values compared at every 997th step, around the 65 536th and 131 072nd value and at the end; the real view is fed the stream and after every update its last() (and WelfordOnline's mean()/variance()) is compared with the batch definition evaluated from the recorded history over the last min(t,N) values in exact rational arithmetic: equality at the exact scalar, a-priori rounding envelope (64 eps x steps x largest magnitude seen, scaled per statistic) at f64. distinct = distinct (kind, N, scalar, input hash); non-trivial = at least one Some output compared. Semantic counters (evictions, evictions of the current extremum, flat windows, ties, zero bases) are measured on the inputs by the oracle.".into()
+        "trial = (view kind of the ten listed, N, input class of the 18-class catalogue, scalar), plus long-history trials (2600..9000 values, N in {3, 17, 40, 64, 130, 250}) and, at f64, histories of 66 000..135 000 positive values (and one each beyond 2^20 and 2^24 values) compared at sparse checkpoints, at every step around the 2^16th, 2^17th, 2^20th and 2^24th value and at the end; the real view is fed the stream and after every update its last() (and WelfordOnline's mean()/variance()) is compared with the batch definition evaluated from the recorded history over the last min(t,N) values in exact rational arithmetic: equality at the exact scalar, a-priori rounding envelope (64 eps x steps x largest magnitude seen, scaled per statistic) at f64. distinct = distinct (kind, N, scalar, input hash); non-trivial = at least one Some output compared. Semantic counters (evictions, evictions of the current extremum, flat windows, ties, zero bases) are measured on the inputs by the oracle.".into()
     }
     fn assumptions(&self) -> Vec<String> {
         vec![
